@@ -6,7 +6,7 @@ Mutation events: (root, ast node, kind text).  Summaries are computed bottom-up 
 """
 import ast
 
-from .program import BackendTable, Ext, Func, Partial, norm
+from .program import BackendTable, Ext, Func, Partial, SelectedBackend, norm
 
 FRESH = frozenset()
 OBJ, CONT, MEM, CMEM = 'obj', 'cont', 'mem', 'cmem'
@@ -295,7 +295,8 @@ class _Analyzer:
             # calling a function-valued parameter/attribute with aliasing args: may do anything -> assume reads only
             return lower(recv)
         t = self.prog.resolve_callable(self.f, self.mod, fnode)
-        if isinstance(t, BackendTable) and isinstance(fnode, ast.Call):
+        if isinstance(t, SelectedBackend):
+            t = t.table
             # mapper(agg)(args...): the selected backend function is called - consider the numpy and dask entries
             out = set()
             for slot, expr in t.entries.items():
@@ -312,11 +313,13 @@ class _Analyzer:
             kw2 = {k: self.val(v) for k, v in t.keywords.items()}
             kw2.update(kwvals)
             return self.apply(t.target, e, pre + argvals, kw2, depth + 1)
-        if isinstance(t, BackendTable):
-            # mapper(x) -> table; handled when the table result is called
+        if isinstance(t, (BackendTable, SelectedBackend)):
+            # constructing / selecting from the table; the selected function is applied when it is called
             return FRESH
         if isinstance(t, tuple) and t and t[0] == 'callresult':
             inner = t[1]
+            if isinstance(inner, SelectedBackend):
+                inner = inner.table
             if isinstance(inner, BackendTable):
                 out = set()
                 for slot, expr in inner.entries.items():
